@@ -437,18 +437,8 @@ def main():
             reference = reference or links
             assert links == reference
 
-    # E. 237255 met after a bitmap that is not for reuse leaves the bitmap for
-    # reuse alone, which can still be recalled; 222255 goes the way of the markers
-    base = [1001, 1002, 12001, 11001, 20010]
-    for p1, p2 in [([0, 1, 0, 1, 1], [1, 1, 0, 0, 0]), ([1, 1, 1, 1, 0], [0, 0, 1, 1, 1]), ([0] * 5, [1] * 5)]:
-        k1, k2 = p1.count(0), p2.count(0)
-        ids = (base + [222000, 236000, 101005, 31031] + [33007] * k1 +
-               [224000, 101005, 31031, 8023] + [224255] * k2 +
-               [237255, 223000, 237000] + [223255] * k1 +
-               [232000, 237000] + [222255] * k1)
-        run_scenario('E', ids, [p1 + p2], [[]], False)
-        run_scenario('E', ids, [p1 + p2] * 2, [[]] * 2, True)
-
+    # E. (rebased: since "fix: 237255 cancels the bitmap defined for reuse also when a bitmap not for reuse has been defined
+    # since" a 237000 after such a 237255 is refused; see the error cases under F)
     # F. errors through messages
     def values_for(ids, bits):
         values = []
@@ -579,7 +569,7 @@ def main():
         state.bitmapped_descriptors = bitmapped = [(1, e2)]
         state.most_recent_bitmap_is_for_reuse = for_reuse
         assert run_op(state, 237255) == ([OperatorDescriptor(237255)], [0])
-        assert state.bitmap is (None if for_reuse else bitmap)
+        assert state.bitmap is None   # (rebased: 237255 cancels whatever was built last)
         assert state.bitmapped_descriptors is bitmapped and state.most_recent_bitmap_is_for_reuse is for_reuse
     # any other operand of 237 is taken as 255
     state = fresh_state()
@@ -729,9 +719,9 @@ def main():
             # x255: the bitmap is defined when the first descriptor that is not 031031 is met
             'coder.define_bitmap', 'coder.process_bitmapped_descriptor',
             # 237255 after a bitmap that is not for reuse, 235000, 237255
-            'coder.process_constant',
+            'state.cancel_bitmap', 'coder.process_constant',
             'state.cancel_all_back_references',
-            'coder.process_constant',
+            'state.cancel_bitmap', 'coder.process_constant',
         ]
 
     print('demo 6 OK: %d template data checked' % n_checked[0])
